@@ -156,6 +156,14 @@ func buildUniverse() {
 	}
 	ou.SetPayload(pu)
 	add("u", idu, ou, true)
+	// t: exactly as long as the first buffered read (20 KiB)
+	idt := pickOID("t", func(s string) bool { return s[0] == sx[0] && s[1] != sx[1] })
+	var ot *object.Object
+	padTo(iobject.NonPayloadFieldsBufferLength, func(k int) []byte {
+		ot = mk(idt, true, 3, iobject.NonPayloadFieldsBufferLength-200+k)
+		return ot.Marshal()
+	})
+	add("t", idt, ot, false)
 }
 
 // ---------- operations ----------
@@ -539,8 +547,49 @@ func (s *sys) Check() (string, string) {
 	fp, what := "", ""
 	bad := func(api, rule string, k int, detail string) {
 		if fp == "" {
-			fp = fmt.Sprintf("%s:%s:%s", api, rule, s.shape(k))
-			what = fmt.Sprintf("[%s] address %s (%d bytes) %s: %s; stored set %v", s.cfg, univ[k].name, len(univ[k].content), api, detail, s.names())
+			sh := s.shape(k)
+			it := univ[k]
+			sz := func(n int) string {
+				switch {
+				case n < iobject.NonPayloadFieldsBufferLength:
+					return "<20KiB"
+				case n == iobject.NonPayloadFieldsBufferLength:
+					return "=20KiB"
+				case n <= 2*iobject.NonPayloadFieldsBufferLength:
+					return "20..40KiB"
+				}
+				return ">40KiB"
+			}
+			// fingerprint shape: raw/zstd, size class relative to the 20 KiB first read and the 40 KiB caller
+			// buffer, and the position class in a combined file (exact position is in the message)
+			var fpShape string
+			switch {
+			case sh == "absent":
+				fpShape = sh
+			case !bytes.Equal(it.stored, it.content):
+				fpShape = "zstd:stored" + sz(len(it.stored)) + ",object" + sz(len(it.content))
+			default:
+				fpShape = "raw:object" + sz(len(it.content))
+			}
+			var a, b int
+			if strings.HasPrefix(fpShape, "zstd:") || sh == "absent" {
+				// compressed items are decoded in memory first: the position in the file is only in the message
+			} else if mi := strings.LastIndex(sh, "member "); mi < 0 {
+				if strings.HasSuffix(sh, "plain") {
+					fpShape += ",plain-file"
+				}
+			} else if _, err := fmt.Sscanf(sh[mi:], "member %d of %d", &a, &b); err == nil {
+				switch {
+				case b == 1:
+					fpShape += ",sole-member"
+				case a == b:
+					fpShape += ",last-member"
+				default:
+					fpShape += ",followed-by-members"
+				}
+			}
+			fp = fmt.Sprintf("%s:%s:%s", api, rule, fpShape)
+			what = fmt.Sprintf("[%s] address %s (%d bytes, %s) %s: %s; stored set %v", s.cfg, univ[k].name, len(univ[k].content), sh, api, detail, s.names())
 		}
 	}
 	guard := func(api string, k int, f func()) {
@@ -603,6 +652,8 @@ func (s *sys) Check() (string, string) {
 				rc.Close()
 				if rerr != nil {
 					bad("GetStream", "stream-error", k, rerr.Error())
+				} else if bytes.Equal(o.Marshal(), it.hdr) && len(p) > len(it.payload) && bytes.Equal(p[:len(it.payload)], it.payload) {
+					bad("GetStream", "trailing-bytes-after-payload", k, fmt.Sprintf("payload %d bytes, stored %d", len(p), len(it.payload)))
 				} else if !bytes.Equal(o.Marshal(), it.hdr) || !bytes.Equal(p, it.payload) {
 					bad("GetStream", "wrong-header-or-payload", k, fmt.Sprintf("payload %d bytes, stored %d", len(p), len(it.payload)))
 				}
@@ -621,7 +672,9 @@ func (s *sys) Check() (string, string) {
 				rc.Close()
 				if rerr != nil {
 					bad("ReadObject", "stream-error", k, rerr.Error())
-				} else if !bytes.Equal(append(bytes.Clone(buf[:n]), rest...), it.content) {
+				} else if got := append(bytes.Clone(buf[:n]), rest...); len(got) < len(it.content) && bytes.Equal(got, it.content[:len(got)]) {
+					bad("ReadObject", "truncated-bytes", k, fmt.Sprintf("%d+%d bytes, stored object has %d", n, len(rest), len(it.content)))
+				} else if !bytes.Equal(got, it.content) {
 					bad("ReadObject", "wrong-bytes", k, fmt.Sprintf("%d+%d bytes, stored %d", n, len(rest), len(it.content)))
 				}
 			}
@@ -713,7 +766,7 @@ func configs(thorough bool) []struct {
 		depth int
 	}
 	xyz, xyzw, xyv, all := []int{0, 1, 2}, []int{0, 1, 2, 3}, []int{0, 1, 4}, []int{0, 1, 2, 3, 4}
-	xu := []int{0, 5}
+	xu, xt := []int{0, 5}, []int{0, 6}
 	if !thorough {
 		return []cd{
 			{config{depth: 1, sel: xyz, triples: true, pairs: pairsQ}, 3},
@@ -722,6 +775,7 @@ func configs(thorough bool) []struct {
 			{config{depth: 4, sel: xyzw, triples: true, pairs: pairsQ}, 2},
 			{config{depth: 1, sel: xyv, triples: true, pairs: pairsQ}, 2},
 			{config{depth: 1, sel: xu, pairs: pairsQ}, 2},
+			{config{depth: 1, sel: xt, pairs: [][2]int{{0, 6}, {6, 0}}}, 2},
 			{config{depth: 1, generic: true, sel: xyzw, triples: true}, 3},
 			{config{depth: 3, generic: true, sel: all, triples: true}, 2},
 		}
@@ -736,6 +790,7 @@ func configs(thorough bool) []struct {
 	r = append(r, cd{config{depth: 1, sel: all, triples: true, pairs: pairsQ}, 2})
 	r = append(r, cd{config{depth: 1, sel: xu, pairs: pairsQ}, 3})
 	r = append(r, cd{config{depth: 0, generic: true, sel: xu}, 3})
+	r = append(r, cd{config{depth: 2, sel: []int{0, 1, 6}, triples: true, pairs: [][2]int{{0, 6}, {6, 0}, {6, 1}}}, 3})
 	r = append(r, cd{config{depth: 1, generic: true, sel: xyzw, triples: true}, 5})
 	return r
 }
